@@ -4,7 +4,7 @@ import ast
 from sa import absint
 from sa.absint import AV, INF, const
 from sa.astutil import (effective, call_name, calls_in, dotted, norm, walk_no_nested, try_fold,
-                        names_in, last_attr, joined_str_parts, format_fields, concat_str)
+                        names_in, last_attr, joined_str_parts, format_fields, concat_str, facts_at)
 from sa.loader import AnalysisError
 from sa.canon import canon
 from sa.symexpand import Expand, substitute, clone
@@ -297,10 +297,18 @@ def run(ctx):
                                                        '(%s+%s)/2.0' % (lo_p, hi_p))]
         ctx.ob('C09.R4', 'bisection:midpoint', len(mids) == 1,
                'the next probe is the midpoint of the bracket', mc, mids[0] if mids else inner)
-        stops = [n for n in walk_no_nested(inner) if isinstance(n, ast.If)
-                 and 'precision' in norm(n.test)]
-        stop_ok = len(stops) == 1 and norm(stops[0].test).replace(' ', '') == \
-            'precision<%s-%s' % (hi_p, lo_p)
+        # the recursion runs exactly under `precision < hi - lo`, the plain return
+        # of the probe under its negation (nested or as an early return)
+        wide = 'precision<%s-%s' % (hi_p, lo_p)
+        rec = [c for c in calls_in(inner) if call_name(c) == inner.name]
+        plain = [r for r in walk_no_nested(inner) if isinstance(r, ast.Return)
+                 and r.value is not None and norm(r.value) == ph_p]
+        stops = rec + plain
+
+        def under(node, polarity):
+            return [(norm(e).replace(' ', ''), p) for e, p in facts_at(node, inner)
+                    if 'precision' in norm(e)] == [(wide, polarity)]
+        stop_ok = len(rec) == 1 and len(plain) == 1 and under(rec[0], True) and under(plain[0], False)
         ctx.ob('C09.R4', 'bisection:stop-on-precision', stop_ok,
                'the search continues while the bracket is wider than the precision', mc,
                stops[0] if stops else inner)
